@@ -234,7 +234,11 @@ func dischargeAll(obls []*Obligation, dir string, timeout int, workers int) {
 		go func() {
 			defer wg.Done()
 			for o := range ch {
-				discharge(o, dir, timeout, true)
+				t := timeout
+				if knownFindingNames()[baseOblName(o.Name)] && t > 10 {
+					t = 10 // an obligation recorded as a known finding is expected to fail: no long search
+				}
+				discharge(o, dir, t, true)
 			}
 		}()
 	}
@@ -290,7 +294,7 @@ func funSymsIn(s string, funs map[string]bool, out map[string]bool) {
 		for j < n && s[j] != '(' && s[j] != ')' && s[j] != ' ' && s[j] != '\n' && s[j] != '"' {
 			j++
 		}
-		if tok := s[i:j]; funs[tok] && !genericSyms[tok] {
+		if tok := s[i:j]; funs[tok] && !genericSyms[tok] && !strings.HasPrefix(tok, "fa_") && !strings.HasPrefix(tok, "box_") && !strings.HasPrefix(tok, "unbox_") {
 			out[tok] = true
 		}
 		i = j
@@ -350,4 +354,17 @@ func (tr *Translator) relevantAxioms(o *Obligation, keep []bool) []bool {
 		}
 	}
 	return sel
+}
+
+var kfNames map[string]bool
+var kfOnce sync.Once
+
+func knownFindingNames() map[string]bool {
+	kfOnce.Do(func() {
+		kfNames = map[string]bool{}
+		for _, f := range loadFindings().Findings {
+			kfNames[f.Obligation] = true
+		}
+	})
+	return kfNames
 }
